@@ -261,7 +261,7 @@ class PDHG(Optimizer):
                :math:`\sigma` values (:math:`\sigma = \mathrm{ratio}
                \tau`).
             factor: Safety factor with which to multiply :math:`\| C
-               \|_2^{-2}` to ensure strict inequality compliance. If
+               \|_2^2` to ensure strict inequality compliance. If
                ``None``, the value is set to 1.0.
             maxiter: Maximum number of power iterations to use in operator
                norm estimation (see :func:`.operator_norm`). Default: 100.
@@ -282,6 +282,6 @@ class PDHG(Optimizer):
         else:
             J = jacobian(C, x)
         Cnrm = operator_norm(J, maxiter=maxiter, key=key)
-        tau = snp.sqrt(factor / ratio) / Cnrm
+        tau = snp.sqrt(1.0 / (factor * ratio)) / Cnrm
         sigma = ratio * tau
         return (tau, sigma)
